@@ -373,5 +373,214 @@ func c08Check(env *h.Env, c *c08Case) error {
 }
 
 func TestC08(t *testing.T) {
-	h.Run(t, "C08", genC08, c08Check)
+	r := h.NewRunner("C08")
+	defer r.Finish(t)
+	h.RunWith(t, r, "", genC08, c08Check)
+	if t.Failed() {
+		return
+	}
+	t.Run("walkrace", func(t *testing.T) {
+		h.ScaleChecks(25, 1, func() { h.RunWith(t, r, "walkrace", genC08Walk, c08WalkCheck) })
+	})
+}
+
+// ---------------------------------------------------------------------------
+// sub-run "walkrace": the receiver walks the old destination while its own
+// disk writer already rewrites it. Small trees whose destination holds
+// directories at paths where the source has something else (fifo, symlink,
+// symlink loop, device, file, nothing); every schedule perturbs the on-disk
+// walkers through the verif-tagged hook after each walk callback, and steered
+// schedules hold the destination walker right after it reported such a
+// directory until the writer has replaced it (bounded). Oracle as above: every
+// schedule terminates, succeeds, and ends in the same destination.
+
+type c08WalkSched struct {
+	Capacity int    `json:"capacity"`
+	Procs    int    `json:"procs"`
+	Seed     uint32 `json:"seed"`
+	Steer    bool   `json:"steer"`
+}
+
+type c08WalkCase struct {
+	Src       *h.Tree        `json:"src"`
+	Dst       *h.Tree        `json:"dst"`
+	MemSrc    bool           `json:"memsrc"`
+	Schedules []c08WalkSched `json:"schedules"`
+}
+
+var c08WalkCfg = h.TreeCfg{
+	MaxEntries: 7, MaxDepth: 3, Names: []string{"a", "b", "d", "a-b", "c"},
+	Kinds:      []h.Kind{h.KFile, h.KFile, h.KSymlink, h.KSymlink, h.KFifo, h.KFifo, h.KChar, h.KSocket},
+	SymTargets: []string{"a", "b", "d", "../d", ".", "a/b", "/nonexistent"},
+}
+
+func genC08Walk(t *rapid.T) *c08WalkCase {
+	c := &c08WalkCase{Src: h.GenTree(t, c08WalkCfg, "src"), MemSrc: rapid.Bool().Draw(t, "memsrc")}
+	if rapid.IntRange(0, 3).Draw(t, "dstkind") == 0 {
+		d := c.Src.Clone()
+		for i := 0; i < rapid.IntRange(1, 4).Draw(t, "nedits"); i++ {
+			d, _ = h.GenEdit(t, d, fmt.Sprintf("e%d", i), c08WalkCfg.Names)
+		}
+		c.Dst = d
+	} else {
+		c.Dst = h.GenTree(t, c08WalkCfg, "dst")
+	}
+	h.AlignIdentical(c.Src, c.Dst, false, 0, 0)
+	m := 4
+	if os.Getenv("VERIF_TIER") == "thorough" {
+		m = 8
+	}
+	for i := 0; i < m; i++ {
+		li := fmt.Sprintf("s%d.", i)
+		c.Schedules = append(c.Schedules, c08WalkSched{
+			Capacity: rapid.SampledFrom([]int{0, 1, 8}).Draw(t, li+"cap"),
+			Procs:    rapid.SampledFrom([]int{1, 2, 16}).Draw(t, li+"procs"),
+			Seed:     uint32(rapid.IntRange(1, 1<<30).Draw(t, li+"seed")),
+			Steer:    i%2 == 1 || rapid.Bool().Draw(t, li+"steer"),
+		})
+	}
+	return c
+}
+
+// steerable: directories of the old destination at paths where the source has
+// no directory.
+func c08Steerable(c *c08WalkCase) []string {
+	si := c.Src.Index()
+	var out []string
+	for _, n := range c.Dst.Nodes {
+		if n.Kind != h.KDir {
+			continue
+		}
+		if sn := si[n.Path]; sn == nil || sn.Kind != h.KDir {
+			out = append(out, n.Path)
+		}
+	}
+	return out
+}
+
+func c08WalkRunOne(env *h.Env, c *c08WalkCase, srcDir string, idx int, s c08WalkSched) (*c08Outcome, int, error) {
+	dstDir := filepath.Join(env.Scratch, fmt.Sprintf("wdst%d", idx))
+	if err := os.Mkdir(dstDir, 0o755); err != nil {
+		return nil, 0, h.Infra(err)
+	}
+	defer h.RemoveAllForce(dstDir)
+	if err := h.Materialise(c.Dst, dstDir); err != nil {
+		return nil, 0, h.Infra(err)
+	}
+	before, err := h.Snapshot(dstDir)
+	if err != nil {
+		return nil, 0, h.Infra(err)
+	}
+	old := runtime.GOMAXPROCS(s.Procs)
+	defer runtime.GOMAXPROCS(old)
+	var src fsutil.FS
+	if c.MemSrc {
+		src = &h.MemFS{T: c.Src, LinkSizeFull: true}
+	} else {
+		if src, err = fsutil.NewFS(srcDir); err != nil {
+			return nil, 0, h.Infra(err)
+		}
+	}
+	steer := map[string]bool{}
+	for _, p := range c08Steerable(c) {
+		steer[p] = true
+	}
+	var wn, overtaken int64
+	prefix := dstDir + string(filepath.Separator)
+	fsutil.VerifAfterWalkEntry = func(full string, isDir bool) {
+		perturb(s.Seed, 10, atomic.AddInt64(&wn, 1))
+		if !s.Steer || !isDir || !strings.HasPrefix(full, prefix) || !steer[full[len(prefix):]] {
+			return
+		}
+		// hold the destination walker between "directory reported" and
+		// "directory opened" until the writer has dealt with that path
+		for i := 0; i < 50; i++ {
+			if fi, err := os.Lstat(full); err != nil || !fi.IsDir() {
+				atomic.AddInt64(&overtaken, 1)
+				return
+			}
+			time.Sleep(50 * time.Microsecond)
+		}
+	}
+	defer func() { fsutil.VerifAfterWalkEntry = nil }()
+	res := h.RunSync(src, dstDir, h.SyncOpt{Capacity: s.Capacity, Setup: func(p *h.Pair) {
+		p.S.BeforeSend = func(n int, _ *types.Packet) error { perturb(s.Seed, 4, int64(n)); return nil }
+		p.R.BeforeRecv = func(n int) error { perturb(s.Seed, 7, int64(n)); return nil }
+	}})
+	fsutil.VerifAfterWalkEntry = nil
+	out := &c08Outcome{}
+	if res.Stuck != "" {
+		out.Err = "stuck"
+		out.Dump = res.Stuck
+		if len(out.Dump) > 6000 {
+			out.Dump = out.Dump[:6000] + "..."
+		}
+		return out, int(overtaken), nil
+	}
+	if res.SendErr != nil || res.RecvErr != nil {
+		out.Err = fmt.Sprintf("send=%v recv=%v", res.SendErr, res.RecvErr)
+		return out, int(overtaken), nil
+	}
+	after, err := h.Snapshot(dstDir)
+	if err != nil {
+		return nil, 0, h.Infra(err)
+	}
+	var sb strings.Builder
+	for _, p := range after.Paths() {
+		e := after[p]
+		mt := e.Mtime
+		if b, ok := before[p]; ok && e.Kind == h.KDir && b.Kind == h.KDir {
+			mt = 0
+		}
+		fmt.Fprintf(&sb, "%s|%v|%o|%d:%d|%d|%s|%s|%d:%d|%d\n", p, e.Kind, e.Perm, e.Uid, e.Gid, e.Size, e.Sha, e.Target, e.Major, e.Minor, mt)
+	}
+	fmt.Fprintf(&sb, "groups=%v\n", partitionOf(after))
+	out.Snap = sb.String()
+	return out, int(overtaken), nil
+}
+
+func c08WalkCheck(env *h.Env, c *c08WalkCase) error {
+	srcDir := filepath.Join(env.Scratch, "wsrc")
+	if !c.MemSrc {
+		if err := os.Mkdir(srcDir, 0o755); err != nil {
+			return h.Infra(err)
+		}
+		if err := h.Materialise(c.Src, srcDir); err != nil {
+			return h.Infra(err)
+		}
+	}
+	steerable := c08Steerable(c)
+	var ref *c08Outcome
+	overtaken := 0
+	for i, s := range c.Schedules {
+		out, ov, err := c08WalkRunOne(env, c, srcDir, i, s)
+		if err != nil {
+			return err
+		}
+		overtaken += ov
+		what := fmt.Sprintf("schedule %d (capacity %d, GOMAXPROCS %d, seed %d, steered %v; destination directories the source replaces: %q)", i, s.Capacity, s.Procs, s.Seed, s.Steer, steerable)
+		if out.Err == "stuck" {
+			return fmt.Errorf("%s: the fault-free transfer never terminated:\n%s", what, out.Dump)
+		}
+		if out.Err != "" {
+			return fmt.Errorf("%s: fault-free transfer failed: %s", what, out.Err)
+		}
+		if ref == nil {
+			ref = out
+			continue
+		}
+		if out.Snap != ref.Snap {
+			return fmt.Errorf("%s: final destination differs from schedule 0: %s", what, firstLineDiff(ref.Snap, out.Snap))
+		}
+	}
+	env.Class("walkrace")
+	if len(steerable) > 0 {
+		env.Class("walkrace-steerable")
+		env.NonTrivial()
+	}
+	if overtaken > 0 {
+		env.Class("walkrace-writer-overtook-walker")
+	}
+	env.R.CountN(len(c.Schedules), 0, "schedule-runs")
+	return nil
 }
